@@ -310,7 +310,7 @@ def gen_c10_runs(rng: Rng, mb, n):
     runs = []
     for parent in (0, 1):
         run = new_run(f'allbound-parent{parent}', origin)
-        run.update({'clients': n_clients, 'client_names': names, 'parent': parent, 'probes': 1, 'policy': POL_DEFAULT, 'kind': 'all-bound'})
+        run.update({'clients': n_clients, 'client_names': names, 'parent': parent, 'probes': 1 | 4, 'policy': POL_DEFAULT, 'kind': 'all-bound'})
         vary_env(Rng(rng.state, 'allbound', parent), run)
         runs.append(run)
     for side, ev, cl in user_bound_events(mb, n_clients):
